@@ -108,6 +108,30 @@ func runC33(c *core.Ctx) {
 			if callee == nil || callee == m {
 				continue
 			}
+			// a delete that stands in the body of a loop over a non-empty constant list (`for _, prefix := range
+			// []string{REQUEST, RECORD} { Delete(key(prefix, id)) }`) is executed for every element of the list
+			inConstLoop := false
+			for _, lp := range eng.FindSliceLoops(callee, func(v ssa.Value) bool { return len(eng.ConstStringList(v)) > 0 }) {
+				if lp.Body == next.Block() || lp.Body.Dominates(next.Block()) {
+					r := ir.NewReach(callee)
+					r.Barrier[next] = true
+					r.RunFromBlock(lp.Body)
+					if !r.BlockEntered(lp.Header) && !func() bool {
+						for _, s := range ir.SuccessSinks(callee) {
+							if r.SinkReachable(s) {
+								return true
+							}
+						}
+						return false
+					}() {
+						inConstLoop = true
+					}
+				}
+			}
+			if inConstLoop {
+				c.Hold("C33.consume-on-every-path", callee, "call Delete("+get.Shape.Canon()+") (in helper) ≺ successful return of the helper", c.P.Rel(next.Pos()), "every iteration of a loop over a non-empty constant list performs the delete")
+				continue
+			}
 			eng.MustPassCall(c, "C33.consume-on-every-path", callee, "Delete("+get.Shape.Canon()+") (in helper)",
 				func(ci ssa.CallInstruction) bool { return ci == next }, ir.SuccessSinks(callee), "successful return of the helper", nil)
 		}
